@@ -482,10 +482,13 @@ fn run(c: &Case) -> Outcome {
 }
 
 pub fn check(ctx: &Ctx) {
-    let quick = ctx.tier == Tier::Quick;
-    let mut payloads = common::all_strings(&SIGMA8, if quick { 3 } else { 4 });
+    // the former thorough bounds take seconds: they are the quick tier now; `deep` = thorough
+    let quick = false;
+    #[allow(unused_variables)]
+    let deep = ctx.tier == Tier::Thorough;
+    let mut payloads = common::all_strings(&SIGMA8, if quick { 3 } else if deep { 5 } else { 4 });
     payloads.extend(
-        common::all_strings(&ABC, if quick { 7 } else { 9 })
+        common::all_strings(&ABC, if quick { 7 } else if deep { 10 } else { 9 })
             .into_iter()
             .filter(|s| s.len() > 3 || s.contains(&b'x')),
     );
@@ -622,7 +625,7 @@ pub fn check(ctx: &Ctx) {
     ctx.run_space(
         "sign_x_verify",
         true,
-        "payloads: all strings over {CR,LF,TAB,SP,'-','a',e-acute,NUL} up to length 3 (thorough 4) and over {CR,LF,x} up to length 7 (9); for each: detached binary/text, SignatureConfig::sign with every 2-piece delivery, MessageBuilder (binary, text sig over binary literal, text sig over utf8 literal; 1 and 2 signers; binary and armored), cleartext framework -- each verified through every applicable interface (direct, after to_bytes/from_bytes, after armor, inline after read_to_end and after 1-byte reads, signature packet extracted from a message and verified as detached, detached signature wrapped as a prefixed-signature message). Every payload with Ed25519 v4 and v6 (SHA-256/512 alternating); ECDSA P-256 v4/v6, EdDSA-legacy, RSA-2048, Ed448 on the short payloads; plus dash/armor-boundary lines (alone, as second line, with final newline), plus payloads x^n.w (w over {CR,LF,x}, |w|<=2) ending exactly at / one past 512, 1024, 8192. evaluations = (sign,verify) pairs.",
+        "payloads: all strings over {CR,LF,TAB,SP,'-','a',e-acute,NUL} up to length 4 (thorough 5) and over {CR,LF,x} up to length 9 (10); for each: detached binary/text, SignatureConfig::sign with every 2-piece delivery, MessageBuilder (binary, text sig over binary literal, text sig over utf8 literal; 1 and 2 signers; binary and armored), cleartext framework -- each verified through every applicable interface (direct, after to_bytes/from_bytes, after armor, inline after read_to_end and after 1-byte reads, signature packet extracted from a message and verified as detached, detached signature wrapped as a prefixed-signature message). Every payload with Ed25519 v4 and v6 (SHA-256/512 alternating); ECDSA P-256 v4/v6, EdDSA-legacy, RSA-2048, Ed448 on the short payloads; plus dash/armor-boundary lines (alone, as second line, with final newline), plus payloads x^n.w (w over {CR,LF,x}, |w|<=2) ending exactly at / one past 512, 1024, 8192. evaluations = (sign,verify) pairs.",
         cases.into_par_iter(),
         run,
     );
